@@ -472,6 +472,7 @@ func checkC06(w *World, r *Report) {
 	s.checkInheritance(r, choke)
 	checkPolicyQueriesPure(w, r)
 	checkPolicyAnswersFromValues(w, r)
+	checkEvaluationStaysInContext(w, r)
 	checkNoNestedTopLevelRender(w, r, reach)
 	checkEveryFilterBecomesANode(w, r)
 	checkSandboxedIncludeSetsFlag(w, r)
@@ -1430,4 +1431,75 @@ func (s *sandboxFacts) summariseNegGuards(method string) map[*ssa.Function]int {
 		}
 	}
 	return out
+}
+
+// checkEvaluationStaysInContext — R06.11: what a template does is done in the context it runs in.
+// No evaluating call — a Node's Render, EvaluateExpression, ApplyFilter, CallFunction, a macro
+// call, or the call of a function value — is handed a render context that was reached by walking
+// .parent links: the sandbox flag lives on the context, and an ancestor of a sandboxed include's
+// context is by construction not sandboxed, so whatever runs "in the nearest enclosing context
+// that …" runs outside the sandbox.  (Reading variables and macros up the chain is not evaluation.)
+func checkEvaluationStaysInContext(w *World, r *Report) {
+	viaParent := func(v ssa.Value) bool {
+		seen := map[ssa.Value]bool{}
+		var walk func(v ssa.Value, d int) bool
+		walk = func(v ssa.Value, d int) bool {
+			v = unspill(v)
+			if seen[v] || d > 8 {
+				return false
+			}
+			seen[v] = true
+			if _, ok := fieldLoad(v, "RenderContext", "parent"); ok {
+				return true
+			}
+			if ph, ok := v.(*ssa.Phi); ok {
+				for _, e := range ph.Edges {
+					if walk(e, d+1) {
+						return true
+					}
+				}
+			}
+			return false
+		}
+		return walk(v, 0)
+	}
+	evaluating := map[string]bool{"EvaluateExpression": true, "ApplyFilter": true, "CallFunction": true, "CallMacro": true, "Render": true, "RenderTo": true, "ApplyFilterChain": true}
+	n := 0
+	for _, fn := range w.pkgFuncs() {
+		instrsOf(fn, func(in ssa.Instruction) {
+			c, ok := in.(ssa.CallInstruction)
+			if !ok {
+				return
+			}
+			cc := c.Common()
+			isEval := false
+			switch {
+			case cc.IsInvoke():
+				isEval = cc.Method.Name() == "Render"
+			case cc.StaticCallee() == nil:
+				isEval = true // a function value (a filter, a function, parent())
+			default:
+				g := cc.StaticCallee()
+				isEval = isTwigFn(g) && evaluating[g.Name()]
+			}
+			if !isEval {
+				return
+			}
+			args := cc.Args
+			if cc.IsInvoke() {
+				args = append([]ssa.Value{}, cc.Args...)
+			}
+			for _, a := range args {
+				if !isNamed(a.Type(), twigPath, "RenderContext") {
+					continue
+				}
+				n++
+				if viaParent(a) {
+					r.bad("R06.11", ssaName(fn), "evaluation in an ancestor context", w.posOf(in.Pos()), "the call is handed a render context obtained by following .parent links: an enclosing context of a sandboxed include is not sandboxed, so the filters and functions run there are not checked against the policy")
+				}
+			}
+		})
+	}
+	r.ok("R06.11", "(package)", "evaluating calls receive the context at hand", "-", fmt.Sprintf("%d context arguments of evaluating calls examined, none reached through .parent", n), true)
+	r.floor("context arguments of evaluating calls", n, 20)
 }
